@@ -137,22 +137,27 @@ func (c *callStateCache) get(callID string, auth *AuthContext) *resolvedCall {
 	return entry.call
 }
 
-func (c *callStateCache) put(callID string, auth *AuthContext, call *resolvedCall) {
+// put caches a resolved call. createdAt is the creation time (Unix seconds)
+// of the call token the entry was resolved from: the entry expires when that
+// token does, not a full TTL after it happened to be cached, so a cached call
+// never outlives the token that names it.
+func (c *callStateCache) put(callID string, auth *AuthContext, call *resolvedCall, createdAt int64) {
 	if c == nil || c.max <= 0 {
 		return
 	}
 	key := callID + "\x00" + callStateIdentity(auth)
+	expiresAt := time.Unix(createdAt, 0).Add(c.ttl)
 	c.mu.Lock()
 	defer c.mu.Unlock()
 	if el, ok := c.entries[key]; ok {
 		el.Value.(*callStateEntry).call = call
-		el.Value.(*callStateEntry).expiresAt = time.Now().Add(c.ttl)
+		el.Value.(*callStateEntry).expiresAt = expiresAt
 		c.order.MoveToFront(el)
 		return
 	}
 	el := c.order.PushFront(&callStateEntry{
 		key:       key,
-		expiresAt: time.Now().Add(c.ttl),
+		expiresAt: expiresAt,
 		call:      call,
 	})
 	c.entries[key] = el
@@ -451,7 +456,7 @@ func (h *HttpServer) packCallToken(callID string, outputSchema *arrow.Schema, au
 	}
 	// Warm the cache with the values we already hold, so this stream's first
 	// continuation does not have to open the token it was just handed.
-	h.callStates.put(callID, auth, &resolvedCall{SchemaIPC: data.SchemaIPC, StreamID: streamID})
+	h.callStates.put(callID, auth, &resolvedCall{SchemaIPC: data.SchemaIPC, StreamID: streamID}, data.CreatedAt)
 	return token, nil
 }
 
@@ -516,7 +521,7 @@ func (h *HttpServer) resolveCall(cursor *cursorTokenData, callToken []byte, auth
 	}
 
 	got := &resolvedCall{SchemaIPC: data.SchemaIPC, StreamID: data.StreamID}
-	h.callStates.put(cursor.CallID, auth, got)
+	h.callStates.put(cursor.CallID, auth, got, data.CreatedAt)
 	return got, nil
 }
 
